@@ -260,6 +260,77 @@ def judge_vector_text(agg, text, v, values, name, n, half, case, site="repr.vect
 
 
 
+def untyped_and_nested(agg, setting):
+    """(a) vectors and tables that have no dtype yet (built from empty sequences): repr leaves them exactly as they were - still
+    untyped, and a row appended afterwards types them as it types a never-printed twin;
+    (b) a vector whose elements are vectors (a ragged stack), longer than the preview limit, head and tail of equal-length
+    elements: exactly the first and last elements are shown around one ellipsis, each by its own values"""
+    import serif, warnings as _w
+    from serif import Vector, Table
+    n, half = limit_of(setting)
+    makers = [("Vector([])", lambda: Vector([])), ("Vector([], name='x')", lambda: Vector([], name="x")), ("Table({'a': [], 'b': []})", lambda: Table({"a": [], "b": []})),
+              ("Table([Vector([]), Vector([])])", lambda: Table([Vector([], name="p"), Vector([], name="q")]))]
+    for label, mk in makers:
+        agg.evals += 1; agg.transitions += 2; agg.states += 1; agg.nontrivial += 1; agg.compared += 1
+        case = {"object": label, "set_repr_rows": setting, "steps": ["repr", "look at the dtypes", "append a row / an element"]}
+        serif.set_repr_rows(setting)
+        try:
+            with _w.catch_warnings():
+                _w.simplefilter("ignore")
+                a, twin = mk(), mk()
+                before = obs(a)
+                text = repr(a)
+                after = obs(a)
+                row = [1, "s"] if type(a).__name__ == "Table" else 5
+                grown, grown_twin = obs(a << row), obs(twin << row)
+        except Exception as e:
+            agg.violation(V("repr.untyped", "raises-" + type(e).__name__, case, None, repr(e)[:80]))
+            continue
+        finally:
+            serif.set_repr_rows(None)
+        if not isinstance(text, str):
+            agg.violation(V("repr.untyped", "not-a-string", case))
+        elif after != before:
+            agg.violation(V("repr.untyped", "object-changed-by-repr", case, before, after))
+        elif grown != grown_twin:
+            agg.violation(V("repr.untyped", "object-behaves-differently-after-repr", case, grown_twin, grown))
+        else:
+            agg.outcomes["vector-ok"] += 1
+    if half >= 1:
+        for total in sorted({2 * half + 1, 2 * half + 2, 2 * half + 5}):
+            for odd_at in ("last", "first", "middle"):
+                odd = {"last": total - 1, "first": 0, "middle": total // 2}[odd_at]
+                agg.evals += 1; agg.transitions += 1; agg.states += 1; agg.nontrivial += 1; agg.compared += 1
+                case = {"object": "vector of vectors (ragged stack)", "elements": total, "element_of_another_length_at": odd, "set_repr_rows": setting}
+                serif.set_repr_rows(setting)
+                try:
+                    with _w.catch_warnings():
+                        _w.simplefilter("ignore")
+                        v = Vector([Vector([1000 + i, 5000 + i] + ([7] if i == odd else [])) for i in range(total)])
+                        if type(v).__name__ == "Table":
+                            agg.skipped["stack-became-a-table"] += 1
+                            continue
+                        text = repr(v)
+                except Exception as e:
+                    agg.violation(V("repr.nested", "raises-" + type(e).__name__, case, None, repr(e)[:80]))
+                    continue
+                finally:
+                    serif.set_repr_rows(None)
+                shown = [i for i in range(total) if str(1000 + i) in text]
+                want = [i for i in shown_indices(total, half) if i != "..."]
+                ell = [ln for ln in text.split("\n") if ln.strip() == "..."]
+                if n % 2 == 1 and 2 * half < total <= n:
+                    agg.skipped["odd-limit-boundary-length"] += 1
+                elif shown != want or any(str(5000 + i) not in text for i in want if i != odd):
+                    agg.violation(V("repr.nested", "not-exactly-the-first-and-last-elements", case, want, shown))
+                elif len(ell) != 1 + (1 if (odd in want and 3 > 2 * half) else 0):      # the 3-element cell is itself shortened under a limit of 2
+                    agg.violation(V("repr.nested", "ellipsis-misplaced", case, 1, len(ell)))
+                elif not text.rstrip().split("\n")[-1].startswith(f"# {total} element vector"):
+                    agg.violation(V("repr.nested", "footer-count-wrong", case, total, text.rstrip().split("\n")[-1]))
+                else:
+                    agg.outcomes["vector-truncated-ok"] += 1
+
+
 def vector_histories(agg, setting):
     """repr, edit in place (also with a value whose hash equals the old one's, so the fingerprint does not move), repr again"""
     import serif
@@ -541,6 +612,7 @@ def run_unit(unit):
                         check_vector(agg, vals, None, setting)
         if kind == "int":
             vector_histories(agg, setting)
+            untyped_and_nested(agg, setting)
         agg.sample({"vector": kind, "set_repr_rows": setting, "lengths": lengths})
     else:
         _, width, setting = unit
